@@ -83,11 +83,48 @@ def run_filter(text):
     return outcome, fired
 
 
+def mutation_cases():
+    """read-only filters over a grid whose cells hold mutable values (list, dict, XStr bytes, nested grid): method names of those values in every
+    path position; the grid must be deep-equal afterwards"""
+    import copy
+    import hszinc
+    from hszinc import Grid, XStr
+    names = ['pop', 'clear', 'reverse', 'sort', 'popitem', 'append', 'data', 'update', 'copy', '__class__', 'lower', 'upper', 'value', 'name', 'encoding', 'keys', 'values', 'items']
+    out = []
+    for nm in names:
+        if not nm[0].islower():
+            continue
+        for flt in ('zones->%s' % nm, 'blob->%s' % nm, 'blob->data->%s' % nm, 'd->%s' % nm, 'd->k->%s' % nm, 'not zones->%s' % nm, 'zones->%s == 1' % nm, 'g2->%s' % nm, 'id->%s' % nm, 'r->%s' % nm):
+            out.append(flt)
+    bad = []
+    for flt in out:
+        g = Grid(version='3.0', columns={'id': {}, 'zones': {}, 'blob': {}, 'd': {}, 'g2': {}, 'r': {}})
+        inner = Grid(version='3.0', columns={'x': {}})
+        inner.append({'x': 1.0})
+        g.append({'id': 'r1', 'zones': ['north', 'south', 'east'], 'blob': XStr('hex', 'deadbeef'), 'd': {'k': [3.0, 1.0, 2.0], 'j': 'x'}, 'g2': inner, 'r': hszinc.Ref('r1', 'dis')})
+
+        def snap():
+            r = g[0]
+            return (list(r['zones']), bytes(r['blob'].data), {k: (list(v) if isinstance(v, list) else v) for k, v in r['d'].items()}, len(r['g2']), [dict(x) for x in r['g2']], str(r['r']), len(g), list(g.column.keys()))
+        before = snap()
+        try:
+            g.filter(flt)
+        except Exception:
+            pass
+        if snap() != before:
+            bad.append((flt, 'filter %r changed the grid: %r -> %r' % (flt, before[:4], snap()[:4])))
+    return bad, len(out)
+
+
 def bounded(tier, seed):
     if not _installed[0]:
         sys.addaudithook(hook)
         _installed[0] = True
     failures, cases = [], 0
+    mb, mn = mutation_cases()
+    cases += mn
+    for flt, what in mb[:4]:
+        failures.append({'id': 'C12/mutation/' + ''.join(ch if ch.isalnum() else '_' for ch in flt), 'what': what, 'input': {'kind': 'mutation', 'text': flt}})
     # warm-up: one benign filter per literal kind and shape, so that whatever the library imports lazily on first use is loaded
     watch_imports[0] = False
     for text in ('a == "s"', 'a == `u`', 'a == @r "d"', 'a == hex("00")', 'a == b64("AA==")', 'a == x("y")', 'a == [1, "s", x("y")]', 'a == {k:"v"}', 'a->b == 1 and not c or d',
@@ -107,6 +144,10 @@ def replay(inp):
     if not _installed[0]:
         sys.addaudithook(hook)
         _installed[0] = True
+    if inp.get('kind') == 'mutation':
+        mb, _ = mutation_cases()
+        hit = [w for f, w in mb if f == inp.get('text')] or [w for f, w in mb]
+        return {'reproduced': bool(hit), 'detail': hit[:2]}
     if inp.get('kind') == 'filter_literal':
         # a text the literal grammar accepts although it spells no value: the real parser must reject `a == <text>`
         from hszinc.grid_filter import parse_filter
